@@ -105,6 +105,13 @@ def extra(ctx, cfg, results, inprocess=True):
         only_of[len(inputs)] = only
         inputs.append((text, None, origin))
         bump(dist["accepted_text_inputs"], origin.split(":")[1])
+    # which recorded classes are open on THIS tree: the entry is still `known`, and - for the classes with a fast symptom
+    # (a panic, an abort) - the recorded input still shows it.  A class that is closed (repaired) books nothing: a crash
+    # that would have fallen into it is a VIOLATION.
+    closed = compute_closed_classes(ctx)
+    dist["closed_classes (repaired on this tree: a crash of such a class is a VIOLATION)"] = sorted(closed)
+    if closed:
+        log(f"C16: recorded classes closed on this tree: {sorted(closed)}")
     with clilib.Scratch("C16") as scratch:
         heavy = {i for i, t in enumerate(inputs) if i in wide_of or t[2] == "fixed: nesting 4 KB"}
         outs = pmap_jobs([(exe, scratch, i, t[0], t[1], only_of.get(i), wide_of.get(i)) for i, t in enumerate(inputs)], heavy)
@@ -230,6 +237,19 @@ def extra(ctx, cfg, results, inprocess=True):
         f"other crashes: {len(crashes)}")
 
 
+def compute_closed_classes(ctx):
+    closed = set()
+    entries = {e["id"]: e for e in vlib.known_findings("C16")}
+    for cls in ("F3a", "F11", "F15", "F20", "F21", "F22"):
+        e = entries.get(cls)
+        if e is None or e.get("status") != "known":
+            closed.add(cls)
+        elif "timeout_s" not in e and "cmd" in e and not replay_known(ctx, e)[0]:
+            closed.add(cls)
+    os.environ["C16_CLOSED_CLASSES"] = ",".join(sorted(closed))
+    return closed
+
+
 def parse_any_corpus():
     """[(kind, text bytes, expected outcome)] from corpus/parse_any_expect.txt: `<kind>\t<text>\t<ok|err>` per line
     (`\\n` in the text = newline; lines beginning with # are comments)"""
@@ -295,6 +315,7 @@ def replay(ctx, cfg, r):
         print("parse_any", k, repr(text)[:300], "->", o)
         bad = o != r["expected"] if r.get("expected") else o not in ("ok", "err")
     else:
+        compute_closed_classes(ctx)
         with clilib.Scratch("C16-replay") as scratch:
             wide = r.get("wide_user_guide_latin1")
             res = run_input(exe, scratch, 0, text, tuple(r["task"]) if r.get("task") else None, wide=wide.encode("latin1") if wide is not None else None)
